@@ -142,19 +142,28 @@ struct Interp {
         ctx.ok();
     }
 };
-rc::Gen<Case> gen_tuple() {
+rc::Gen<Op> gen_tuple_op() {
     return rc::gen::exec([]() {
         Op o = mk("tuple");
         long mask = 0;
         for (int k = 0; k < 7; k++) if (*range(0, 9) < 6) mask |= 1L << k;
-        o.ints = {mask, *range(0, 1), *range(0, 3), *rc::gen::elementOf(std::vector<long>{80, 21, 443, 8080, 1, 65535}), *range(0, 1)};
-        std::string proto = *rc::gen::elementOf(std::vector<std::string>{"http", "ftp", "tcp", "udp", "ip", "file", "x9", "unix", "HTTP", "zz"});
+        o.ints = {mask, *range(0, 1), *range(0, 3), *rc::gen::elementOf(std::vector<long>{80, 21, 443, 8080, 1, 65535, 10000}), *range(0, 1)};
+        // (families of scheme words that are prefixes of one another: a parse must not remember the previous one's lookup)
+        std::string proto = *rc::gen::elementOf(std::vector<std::string>{"http", "ftp", "tcp", "udp", "ip", "file", "x9", "unix", "HTTP", "zz", "https", "httpx", "htt", "ftps", "ft", "pop3", "pop3s"});
         std::string user = *text_over("abcXYZ019._-", 8), passwd = *text_over("abcXYZ019._-:", 8), host = *text_over("abcxyz019.-", 12);
         if (*range(0, 2) == 0) host = *rc::gen::elementOf(std::vector<std::string>{"localhost", "a", "host.example.org", "10.0.0.1", "h-1"});
         std::string port = *range(0, 4) == 0 ? *text_over("0123456789:", 6) : std::to_string(*range(0, 65535));
         std::string path = "/" + *text_over("abc019._-/@:~%+", 16), query = *text_over("abc019=&:@/?._-", 14);
         o.strs = {proto, user, passwd, host, port, path, query};
-        Case c = {o};
+        return o;
+    });
+}
+// one to three URLs per case, parsed one after the other in the same process: the answer for one must not depend on the ones before
+rc::Gen<Case> gen_tuple() {
+    return rc::gen::exec([]() {
+        Case c;
+        long n = *rc::gen::weightedElement<long>({{3, 1}, {2, 2}, {1, 3}});
+        for (long i = 0; i < n; i++) c.push_back(*gen_tuple_op());
         return c;
     });
 }
